@@ -38,4 +38,4 @@ def schnorr_verify_bytes(pub, msg, sig):
 def schnorr_sign_then_verify(d, msg, aux):
     pk = PrivateKey(d)
     sig = pk.sign_schnorr(msg, aux)
-    return pk.point.verify_schnorr(msg, SchnorrSignature.parse(sig.serialize()))
+    return pk.point.verify_schnorr(msg, sig)
